@@ -222,9 +222,14 @@ class Summaries:
                     # `return a() && b()` etc. are judged below
                     pass
             if V in (True, False) and (k == 'Bin' or (k == 'Call' and e.get('opc'))) and (e.get('op') or e.get('opc')) in ('<', '>', '<=', '>=', '==', '!='):
-                # a comparison of counts/values ("did anything change?") reports a state, not a failure path
-                self.skipped.append((f, r, render(e)))
-                continue
+                # "did anything change?": the state now (a call) compared with a snapshot taken before (a local) reports a state,
+                # not a failure path.  Any other comparison (e.g. of a parameter with a count) is a computed verdict and is judged below.
+                ops = e.get('c', [])
+                kinds = sorted((o.get('k'), o.get('dk')) for o in ops)
+                is_call = lambda o: o.get('k') == 'Call' and not o.get('opc')
+                if len(ops) == 2 and any(is_call(o) for o in ops) and any(o.get('k') == 'Ref' and o.get('dk') == 'local' for o in ops):
+                    self.skipped.append((f, r, render(e)))
+                    continue
             if V in (True, False) and k in ('Bin', 'Un', 'Call', 'Cond'):
                 # a computed boolean: every failing evaluation must come from summarised callees only
                 calls = [x for x in walk(e) if x.get('k') == 'Call' and x.get('ck')]
